@@ -984,9 +984,11 @@ pub fn serve() -> ! {
             let _ = std::env::set_current_dir(fields[5]);
         }
         for kv in fields[6].split('\x1f').filter(|s| !s.is_empty()) {
+            // Safety: No link is running, so nothing else is reading the environment.
             if let Some((k, v)) = kv.split_once('=') {
-                // Safety: No link is running, so nothing else is reading the environment.
                 unsafe { std::env::set_var(k, v) };
+            } else {
+                unsafe { std::env::remove_var(kv) };
             }
         }
         let argv: Vec<String> = std::iter::once("wild".to_owned())
